@@ -258,7 +258,8 @@ func genC02d(seed uint64) c02dcase {
 			if !cs.v11 {
 				cs.tail = "trunc-eof"
 			} else {
-				cs.tail = "malformed:" + r.Pick([]string{"oversize", "zero", "alpha", "negative", "undersize", "11-digits", "empty"})
+				cs.tail = "malformed:" + r.Pick([]string{"oversize", "zero", "alpha", "negative", "undersize", "11-digits", "empty",
+					"hex", "hex", "octal", "binary", "underscore", "space", "wrap32"})
 			}
 		}
 	}
@@ -386,6 +387,20 @@ func c02malform(fr []byte, class string) []byte {
 		nh = "1234567890" + hdr[:1]
 	case "empty":
 		nh = ""
+	// the right size in a syntax other integer parsers accept: an accepting decoder would hand
+	// out the exact payload as a healthy response
+	case "hex":
+		nh = fmt.Sprintf("0x%x", n)
+	case "octal":
+		nh = fmt.Sprintf("0o%o", n)
+	case "binary":
+		nh = fmt.Sprintf("0b%b", n)
+	case "underscore":
+		nh = hdr[:1] + "_" + hdr[1:]
+	case "space":
+		nh = " " + hdr
+	case "wrap32":
+		nh = strconv.FormatUint(1<<32+uint64(n), 10)
 	}
 	return append(append(append([]byte{}, fr[:i+1]...), nh...), fr[j:]...)
 }
